@@ -3,6 +3,7 @@ import Abmarl.Props.Examples
 import Abmarl.Props.Corridor
 import Abmarl.Props.MultiGrid
 import Abmarl.Props.Reach
+import Abmarl.Props.Broadcast
 #print axioms Abmarl.fresh_twin_managers
 #print axioms Abmarl.mgr_reset_forgets
 #print axioms Abmarl.runOp_reset_eq
@@ -43,3 +44,5 @@ import Abmarl.Props.Reach
 #print axioms Abmarl.reach_reset_establishes
 #print axioms Abmarl.reach_reset_forgets
 #print axioms Abmarl.reach_fresh_twin
+#print axioms Abmarl.broadcast_reset_forgets
+#print axioms Abmarl.broadcast_fresh_twin
